@@ -221,6 +221,7 @@ pub fn run_case(c: &Case) -> Outcome {
     let c2 = c.clone();
     vh::set_planner_step_cap(2_000_000);
     let _ = vh::last_plan();
+    let _ = vh::planner_totals();
     let r = guarded(move || {
         DataMatrixBuilder::new()
             .with_encodation_types(modes_from_bits(c2.modes))
@@ -230,7 +231,11 @@ pub fn run_case(c: &Case) -> Outcome {
             .encode_eci(&c2.data, c2.eci)
     });
     let plan = vh::last_plan();
-    let tr = vh::planner_trace();
+    let mut tr = vh::planner_trace();
+    // all planning done for this one message: an encoder that calls optimize() more than once must
+    // still stay within the linear bound (the per-call trace is reset by every optimize())
+    let (_opt_calls, total_steps) = vh::planner_totals();
+    tr.steps = tr.steps.max(total_steps);
     // every documented entry point, on all short cases and a sample of the long ones
     let (api, api_checked) = if c.data.len() <= 48 || c.data.len() % 8 == 3 {
         let a = api_wrappers(c, &r, &plan_str(&plan));
